@@ -10,7 +10,7 @@ use serde_json::{json, Value};
 use std::path::PathBuf;
 
 fn scratch() -> PathBuf {
-    let d = fw::verif_root().join("build").join("scratch-c07");
+    let d = fw::verif_root().join("build").join(format!("scratch-c07-{}", std::process::id()));
     let _ = std::fs::create_dir_all(&d);
     d
 }
